@@ -4,178 +4,9 @@
 use serde_json::{Value, json};
 use vrp_core::construction::heuristics::*;
 use vrp_verif_harness::evalcase::*;
+use vrp_verif_harness::evalgen::*;
 use vrp_verif_harness::pragen::quiet_env;
 use vrp_verif_harness::*;
-
-fn gen_matrix(rng: &mut Rng, n: usize, max: i64, metric: bool) -> Vec<i64> {
-    let mut m = vec![0i64; n * n];
-    for i in 0..n {
-        for j in 0..n {
-            if i != j {
-                m[i * n + j] = rng.range(1, max);
-            }
-        }
-    }
-    if metric {
-        for k in 0..n {
-            for i in 0..n {
-                for j in 0..n {
-                    let via = m[i * n + k] + m[k * n + j];
-                    if via < m[i * n + j] {
-                        m[i * n + j] = via;
-                    }
-                }
-            }
-        }
-    }
-    m
-}
-
-fn zero(dims: usize) -> Vec<i64> {
-    vec![0; dims]
-}
-
-fn rnd_load(rng: &mut Rng, dims: usize, max: i64) -> Vec<i64> {
-    let mut v: Vec<i64> = (0..dims).map(|_| rng.range(0, max)).collect();
-    if v.iter().all(|x| *x == 0) {
-        v[0] = 1;
-    }
-    v
-}
-
-/// one generated case; `kind` = "single" | "multi"
-pub fn gen_case(rng: &mut Rng, kind: &str) -> Value {
-    let n = rng.usize(3, 6);
-    let metric = rng.chance(1, 2);
-    let dur = gen_matrix(rng, n, 30, metric);
-    let dist = if rng.chance(1, 3) { dur.clone() } else { gen_matrix(rng, n, 40, metric) };
-    let dims = if rng.chance(1, 3) { 2 } else { 1 };
-    let earliest = rng.range(0, 50);
-    let k = rng.usize(0, 6);
-    let can_shift = rng.chance(1, 3);
-    let dep = if can_shift && k > 0 { earliest + rng.range(0, 20) } else { earliest };
-    let latest = if can_shift { if rng.chance(1, 2) { Value::Null } else { json!(dep + rng.range(0, 30)) } } else { json!(earliest) };
-
-    // tour, feasible by construction (windows placed around the simulated arrival)
-    let mut tour = vec![];
-    let (mut loc, mut t) = (0usize, dep);
-    // pending dynamic deliveries (pickup-delivery pairs modelled as two single jobs with dynamic demand)
-    let mut pending: Vec<Vec<i64>> = vec![];
-    for _ in 0..k {
-        let l = rng.usize(0, n - 1);
-        let d = rng.range(0, 10);
-        let arr = t + dur[loc * n + l];
-        let s = if rng.chance(1, 3) { arr + rng.range(0, 15) } else { arr - rng.range(0, 20) }.max(0);
-        let slack = *rng.pick(&[0i64, 0, 1, 3, 10, 100, 1000]);
-        let e = s.max(arr) + slack;
-        let dem = match rng.below(7) {
-            0 => Value::Null,
-            1 | 2 => json!([rnd_load(rng, dims, 3), zero(dims), zero(dims), zero(dims)]), // static pickup
-            3 | 4 => json!([zero(dims), zero(dims), rnd_load(rng, dims, 3), zero(dims)]), // static delivery
-            5 => {
-                // dynamic: deliver a pending shipment if any, else pick one up
-                if let Some(p) = pending.pop() {
-                    json!([zero(dims), zero(dims), zero(dims), p])
-                } else {
-                    let p = rnd_load(rng, dims, 3);
-                    pending.push(p.clone());
-                    json!([zero(dims), p, zero(dims), zero(dims)])
-                }
-            }
-            _ => {
-                let x = rnd_load(rng, dims, 2);
-                json!([x.clone(), zero(dims), x, zero(dims)]) // replacement
-            }
-        };
-        tour.push(json!({"loc": l, "s": s, "e": e, "dur": d, "dem": dem}));
-        t = arr.max(s) + d;
-        loc = l;
-    }
-    let end = if rng.chance(1, 3) {
-        Value::Null
-    } else {
-        let el = if rng.chance(2, 3) { 0 } else { rng.usize(0, n - 1) };
-        let arr = t + dur[loc * n + el];
-        json!([el, arr + *rng.pick(&[0i64, 0, 2, 5, 20, 100, 1000])])
-    };
-
-    // capacity: max load of the profile + slack
-    let mut cap = vec![0i64; dims];
-    {
-        let dem_of = |a: &Value, i: usize| -> Vec<i64> { if a["dem"].is_null() { zero(dims) } else { i64s(&a["dem"][i]) } };
-        let mut cur: Vec<i64> = zero(dims);
-        for a in tour.iter() {
-            let sd = dem_of(a, 2);
-            for k in 0..dims {
-                cur[k] += sd[k];
-            }
-        }
-        let mut mx = cur.clone();
-        for a in tour.iter() {
-            let (sp, dp, sd, dd) = (dem_of(a, 0), dem_of(a, 1), dem_of(a, 2), dem_of(a, 3));
-            for k in 0..dims {
-                cur[k] += sp[k] + dp[k] - sd[k] - dd[k];
-                mx[k] = mx[k].max(cur[k]);
-            }
-        }
-        for k in 0..dims {
-            cap[k] = mx[k] + *rng.pick(&[0i64, 0, 1, 2, 3, 5]);
-        }
-    }
-
-    let horizon = t + 60;
-    let gen_places = |rng: &mut Rng| -> Value {
-        let np = if rng.chance(1, 4) { 2 } else { 1 };
-        let places: Vec<Value> = (0..np)
-            .map(|_| {
-                let nw = *rng.pick(&[1usize, 1, 1, 2, 3]);
-                let mut tws: Vec<(i64, i64)> = (0..nw)
-                    .map(|_| {
-                        let s = rng.range(0, horizon.max(1));
-                        (s, s + *rng.pick(&[0i64, 1, 5, 20, 60, 500]))
-                    })
-                    .collect();
-                if rng.chance(1, 2) {
-                    tws.sort();
-                }
-                if rng.chance(1, 5) {
-                    tws[0] = (0, 100000);
-                }
-                json!({"loc": rng.usize(0, n - 1), "dur": rng.range(0, 10), "tws": tws})
-            })
-            .collect();
-        json!(places)
-    };
-    let costs = json!([rng.range(0, 20), rng.range(1, 3), rng.range(0, 2)]);
-    let obj = if rng.chance(1, 2) { "cost" } else { "distance" };
-    let mut case = json!({
-        "k": kind, "n": n, "dur": dur, "dist": dist,
-        "veh": {"start": 0, "earliest": earliest, "latest": latest, "dep": dep, "end": end},
-        "cap": cap, "costs": costs, "obj": obj, "tour": tour,
-    });
-    if kind == "single" {
-        let dem = match rng.below(7) {
-            0 => Value::Null,
-            // mixed shape (core API only): static delivery together with a dynamic pickup in one activity
-            6 => json!([zero(dims), rnd_load(rng, dims, 3), rnd_load(rng, dims, 3), zero(dims)]),
-            1 | 2 => json!([rnd_load(rng, dims, 3), zero(dims), zero(dims), zero(dims)]),
-            3 | 4 => json!([zero(dims), zero(dims), rnd_load(rng, dims, 3), zero(dims)]),
-            _ => {
-                let x = rnd_load(rng, dims, 2);
-                json!([x.clone(), zero(dims), x, zero(dims)])
-            }
-        };
-        case["job"] = json!({"places": gen_places(rng), "dem": dem});
-    } else {
-        // pickup then delivery of the same shipment (dynamic demand)
-        let p = rnd_load(rng, dims, 3);
-        case["jobs"] = json!([
-            {"places": gen_places(rng), "dem": [zero(dims), p.clone(), zero(dims), zero(dims)]},
-            {"places": gen_places(rng), "dem": [zero(dims), zero(dims), zero(dims), p]},
-        ]);
-    }
-    case
-}
 
 fn gen_cases(rng: &mut Rng, tier: Tier) -> Vec<Value> {
     let scale = if tier == Tier::Thorough { 30 } else { 1 };
